@@ -22,6 +22,7 @@ CONSTANTS ThrIdx,        \* which threshold settings (indices into ThrTable) are
           SliceCaps,     \* per-slice op caps, NONE = absent
           RagScores,     \* offsets class of the best retrieved score (see RagPoint)
           RagLoops,      \* max_rag_loops values
+          TurnSlices,    \* per-slice t3_ops budgets of the scheduler for the Turn table (NONE = scheduler off)
           RawTokens, Budgets, \* Speak
           SanFull        \* TRUE: full cross product of sanitiser classes; FALSE: irrelevant dimensions canonical
 
@@ -116,18 +117,21 @@ InitRag == inp \in {i \in RagInputs : RagOK(i)} /\ out = RagF(inp)
 
 -----------------------------------------------------------------------------
 (* Turn: one retrieval for T2, plus the refinement's retrieval iff the plan requests it and
-   max_rag_loops >= 1 (only one-shot refinement exists).                                            *)
+   max_rag_loops >= 1 (only one-shot refinement exists).  With the scheduler on, a plan that uses up
+   the slice's t3_ops budget makes the turn yield at the stage boundary after planning (docs/m8
+   scheduler: BUDGET_T3_OPS when consumed = budget), i.e. before any refinement or speaking.      *)
 TurnF(i) ==
     LET d == DelibF(i)
         rr == "RequestRetrieve" \in Elems(d.ops)
-        refine == rr /\ i.loops >= 1
+        yielded == i.slice # NONE /\ Len(d.ops) = i.slice
+        refine == rr /\ i.loops >= 1 /\ ~yielded
         r == RagF([i EXCEPT !.shape = "natural", !.used = FALSE])
-    IN IF refine THEN [r EXCEPT !.calls = 2] @@ [requested |-> rr]
+    IN IF refine THEN [r EXCEPT !.calls = 2] @@ [requested |-> rr, yielded |-> FALSE]
        ELSE [ops |-> d.ops, intent |-> d.intent, mincap |-> d.mincap, simeff |-> i.sim, lo |-> d.lo,
-             hi |-> d.hi, calls |-> 1, refined |-> FALSE, requested |-> rr]
+             hi |-> d.hi, calls |-> 1, refined |-> FALSE, requested |-> rr, yielded |-> yielded]
 
 TurnInputs == [thr : {1}, sim : SimPoints(ThrTable[1]), lab : {"none", "some"}, nbig : NBig,
-               nsmall : {0}, cap : Caps, slice : {NONE}, rag : {RagPoint(ThrTable[1], c) : c \in RagScores},
+               nsmall : {0}, cap : Caps, slice : TurnSlices, rag : {RagPoint(ThrTable[1], c) : c \in RagScores},
                nhits : {0, 2}, shape : {"natural"}, used : {FALSE}, loops : RagLoops, budget : Budgets]
 
 InitTurn == inp \in {i \in TurnInputs : RagOK(i)} /\ out = TurnF(inp)
